@@ -1,4 +1,8 @@
 #include <morfuse/Common/Time.h>
+#ifdef MORFUSE_VERIF
+#include <morfuse/Common/VerifHooks.h>
+int64_t (*mfuse::verif::clockHook)() = nullptr;
+#endif
 
 using namespace mfuse;
 
@@ -12,6 +16,9 @@ uinttime_t TimeManager::Frame()
     using namespace std::chrono;
 
     time_point<steady_clock> clockTime = steady_clock::now();
+#ifdef MORFUSE_VERIF
+    verif::OverrideNow(clockTime);
+#endif
 
     steady_clock::duration deltaClock = clockTime - lastClockTime;
     deltaTime = duration_cast<milliseconds>(deltaClock).count();
@@ -27,6 +34,9 @@ uinttime_t TimeManager::Frame(float timeScale)
     using namespace std::chrono;
 
     time_point<steady_clock> clockTime = steady_clock::now();
+#ifdef MORFUSE_VERIF
+    verif::OverrideNow(clockTime);
+#endif
 
     steady_clock::duration deltaClock = clockTime - lastClockTime;
     deltaTime = duration_cast<milliseconds>(deltaClock).count();
@@ -52,12 +62,18 @@ uinttime_t TimeManager::GetTime() const
     using namespace std::chrono;
 
     time_point<steady_clock> clockTime = steady_clock::now();
+#ifdef MORFUSE_VERIF
+    verif::OverrideNow(clockTime);
+#endif
     return duration_cast<milliseconds>(clockTime - startTime).count();
 }
 
 void TimeManager::Reset()
 {
     startTime = std::chrono::steady_clock::now();
+#ifdef MORFUSE_VERIF
+    verif::OverrideNow(startTime);
+#endif
     lastClockTime = startTime;
     scaledTime = 0;
 }
